@@ -456,6 +456,19 @@ func cmdCheck(args []string) int {
 				delete(solverHints, k)
 			}
 		}
+		// slow proofs by the first solver: is one of the others much faster?
+		for _, o := range allObls {
+			if o.ExpectSat || o.Status != "unsat" || o.Secs < 1.0 || o.SMTFile == "" || strings.TrimSuffix(o.Solver, " (retry)") != solvers[0].name {
+				continue
+			}
+			for _, sv := range solvers[1:] {
+				st, _, secs := runSolver(sv, o.SMTFile, 5)
+				if st == "unsat" && secs*3 < o.Secs {
+					solverHints[shortFn(o.Fn)+"/"+o.Name] = sv.name
+					break
+				}
+			}
+		}
 		data, _ := json.MarshalIndent(solverHints, "", " ")
 		os.WriteFile(filepath.Join(*verif, "solver_hints.json"), data, 0o644)
 	}
